@@ -1374,7 +1374,7 @@ func conv(fr *frame, t_dst, t_src types.Type, x value) value {
 		}
 
 		// unsafe.Pointer -> *value
-			if ut_src.Kind() == types.UnsafePointer {
+		if ut_src.Kind() == types.UnsafePointer {
 			// unsafe.Pointer -> *T returns the same cell: every
 			// round-trip in the code under test (valuemap.go) converts
 			// back to the pointer type it started from.
